@@ -4,22 +4,50 @@
 Reads pymeeus/{Mercury,Venus,Earth,Mars,Jupiter,Saturn,Uranus,Neptune}.py of the repository
 ($VERIF_REPO, default /repo) with Python's `ast` (stdlib only) and writes
 
-  lean/Pymeeus/Gen/FinderData.lean   one data record per finder (constants as exact decimals, the
-                                     `corr`/`elon`/`jde` right-hand sides as expression trees)
+  lean/Pymeeus/Gen/FinderData.lean      one data record per finder (constants as exact decimals, the
+                                        `corr`/`elon`/`jde` right-hand sides as expression trees)
   lean/Pymeeus/Gen/FinderDispatch.lean  the driver dispatch  "<Planet>.<finder>" -> record
 
 Files are rewritten only when their text changes.  The meaning of the records is given by the
 single hand-written evaluator lean/templates/Finders.lean (instantiated at Real and at Float).
 
-The translator recognises exactly the statement shapes listed in PAT_* below.  Anything else -
-an extra statement, another operator, a literal where a name is expected, a finder-like method
-it does not know - makes it exit non-zero with the function name and source line.  It never
-guesses: every number that ends up in a record is the text of a literal of the current source.
+How a function is read (two stages, so that the way the code is *written* does not matter, only what it
+*computes*):
+
+ 1. NORMALISATION by symbolic execution of the function body (class `Sym`).  The body must be straight-line
+    code over a small statement set (assignments, tuple assignments, augmented assignments on numbers,
+    `if` with raises or assignments, conditional expressions, `for` over a list written in the function,
+    `lst.append(x)` on such a list, `return`).  Every local name is replaced by the expression it holds at
+    the point of use (so renamed locals, temporaries, chained calls `Angle(x).to_positive().rad()` versus
+    three statements, `a, b = x, y`, `v = e0; v += e1` == `v = e0 + e1` in Python's own left-to-right
+    order, `if not c: A else: B` == `if c: B else: A`, `x = p if c else q` all give the same result);
+    calls to private helpers (module-level functions of the same module, `_`-prefixed static methods of the
+    class) are executed in place with their arguments bound; module-level constants (numbers, tuples of
+    numbers) are substituted when - and only when - the name is bound exactly once in its module and no
+    store, augmented assignment, subscript/attribute store, `del`, `global` or string mention of the name
+    exists anywhere in the package.  The result is: the ordered list of events (conditional raises and
+    calls) and ONE expression for the returned value, in terms of the parameters only.
+ 2. MATCHING of that normal form against the one shape of each kind of finder (`translate_ch36`,
+    `translate_pa`, `translate_nodes`).  Every number that ends up in a record is the text of a literal of
+    the current source.
+
+Assumptions of the normalisation (the same ones the model templates make): the functions and methods that stay
+as calls in the normal form (`epoch.year()`, `Angle(x)`, `.rad()`, `sin`, `round`, `Epoch(x)`,
+`<Planet>.geometric_heliocentric_position`, ...) are functions of their arguments and do not modify them (C20 checks
+that for the package); `Angle.to_positive()` changes its receiver in place and returns it, which is followed when the
+receiver is held by a local name; any other method called on an object held by a local name is rejected.
+
+Anything else - an unknown statement, another operator, a finder-like public method it does not know, a
+normal form that is not the expected shape - makes it exit non-zero with the function name and source
+line.  It never guesses.  `--selftest` runs must-accept rewrites (identical record) and adversarial
+must-differ / must-reject variants of one finder.
 """
 import ast
+import copy
 import os
 import re
 import sys
+from fractions import Fraction
 
 HERE = os.path.dirname(os.path.abspath(__file__))
 REPO = os.environ.get('VERIF_REPO', '/repo')
@@ -51,7 +79,6 @@ def _fast_segment(source, node):
     first = lines[l0].encode()[c0:].decode()
     last = lines[l1].encode()[:c1].decode()
     return ''.join([first] + lines[l0 + 1:l1] + [last])
-
 
 
 class Reject(Exception):
@@ -96,26 +123,52 @@ def literal(ctx, node):
     return (-d[0] if neg else d[0], d[1])
 
 
+def dec_value(d):
+    return Fraction(d[0], 10 ** d[1])
+
+
 def lean_dec(d):
     return '⟨%d, %d⟩' % d
 
 
 # ------------------------------------------------------------------ structural matching
+_DUMP = {}
+
+
+def dump(node):
+    """Structural key of an expression (positions ignored).  Cached by object, the object is kept alive."""
+    ent = _DUMP.get(id(node))
+    if ent is None or ent[0] is not node:
+        ent = (node, ast.dump(node))
+        _DUMP[id(node)] = ent
+    return ent[1]
+
+
+def same(a, b):
+    return a is b or dump(a) == dump(b)
+
+
 def match(pat, node, caps, ctx):
-    """Does `node` have the shape of `pat`?  Names `_L<n>` of the pattern capture a literal,
-    `_E<n>` any expression, `_X` the class name of the planet."""
+    """Does `node` have the shape of `pat`?  Names of the pattern: `_L<n>` captures a literal (a second
+    occurrence must have the same value), `_E<n>` captures any expression, `_S<n>` must be structurally
+    equal to the expression preset in caps, `_F<n>` must satisfy the predicate preset in caps, `_X` is the
+    class name of the planet."""
     if isinstance(pat, ast.Name):
         if pat.id.startswith('_L'):
             lit = literal(ctx, node)
             if lit is None:
                 return False
-            if pat.id in caps and caps[pat.id] != lit:
+            if pat.id in caps and dec_value(caps[pat.id]) != dec_value(lit):
                 return False
-            caps[pat.id] = lit
+            caps.setdefault(pat.id, lit)
             return True
         if pat.id.startswith('_E'):
             caps[pat.id] = node
             return True
+        if pat.id.startswith('_S'):
+            return same(caps[pat.id], node)
+        if pat.id.startswith('_F'):
+            return bool(caps[pat.id](node))
         if pat.id == '_X':
             return isinstance(node, ast.Name) and node.id == ctx['cls']
     if type(pat) is not type(node):
@@ -141,92 +194,594 @@ def match(pat, node, caps, ctx):
     return True
 
 
-def P(text):
-    return ast.parse(text).body[0]
+_PE = {}
 
 
-def is_raise(stmt, exc):
-    return (isinstance(stmt, ast.Raise) and isinstance(stmt.exc, ast.Call)
-            and isinstance(stmt.exc.func, ast.Name) and stmt.exc.func.id == exc)
+def PE(text):
+    """Pattern: an expression."""
+    if text not in _PE:
+        _PE[text] = ast.parse(text, mode='eval').body
+    return _PE[text]
 
 
-class Body:
-    """Cursor over the statements of a function body."""
+# ------------------------------------------------------------------ the package: who writes to a name?
+class Package:
+    """All modules of the package, parsed on demand, to answer: is this module-level name ever re-bound?"""
 
-    def __init__(self, ctx, stmts):
-        self.ctx, self.stmts, self.i = ctx, stmts, 0
+    def __init__(self, sources):
+        self.sources = sources          # {relative path: text}
+        self._trees = {}
 
-    def peek(self):
-        return self.stmts[self.i] if self.i < len(self.stmts) else None
+    def tree(self, rel):
+        if rel not in self._trees:
+            self._trees[rel] = ast.parse(self.sources[rel])
+        return self._trees[rel]
 
-    def expect(self, pat_text, caps=None, what=None):
-        caps = {} if caps is None else caps
-        st = self.peek()
-        if st is None:
-            fail(self.ctx, self.stmts[-1], 'function ends where `%s` was expected' % pat_text)
-        if not match(P(pat_text), st, caps, self.ctx):
-            fail(self.ctx, st, 'statement `%s` does not have the shape `%s`' % (ast.unparse(st)[:80], pat_text))
-        self.i += 1
-        return caps
+    @staticmethod
+    def module_level(tree):
+        """Statements executed at module level (inside if/for/while/try/with too, not inside def/class)."""
+        out, todo = [], list(tree.body)
+        while todo:
+            st = todo.pop()
+            out.append(st)
+            if isinstance(st, (ast.FunctionDef, ast.AsyncFunctionDef, ast.ClassDef)):
+                continue
+            for f in ('body', 'orelse', 'finalbody', 'handlers'):
+                for s in getattr(st, f, []) or []:
+                    if isinstance(s, ast.ExceptHandler):
+                        todo.extend(s.body)
+                    elif isinstance(s, ast.stmt):
+                        todo.append(s)
+        return out
 
-    def try_(self, pat_text, caps=None):
-        caps = {} if caps is None else caps
-        st = self.peek()
-        if st is not None and match(P(pat_text), st, caps, self.ctx):
-            self.i += 1
-            return caps
+    @staticmethod
+    def bound_names(st):
+        """Names bound by one module-level statement (not descending into nested statements)."""
+        names = []
+
+        def targets(t):
+            if isinstance(t, ast.Name):
+                names.append(t.id)
+            elif isinstance(t, (ast.Tuple, ast.List)):
+                for e in t.elts:
+                    targets(e)
+            elif isinstance(t, ast.Starred):
+                targets(t.value)
+        if isinstance(st, ast.Assign):
+            for t in st.targets:
+                targets(t)
+        elif isinstance(st, (ast.AugAssign, ast.AnnAssign)):
+            targets(st.target)
+        elif isinstance(st, (ast.For, ast.AsyncFor)):
+            targets(st.target)
+        elif isinstance(st, (ast.With, ast.AsyncWith)):
+            for it in st.items:
+                if it.optional_vars is not None:
+                    targets(it.optional_vars)
+        elif isinstance(st, (ast.Import, ast.ImportFrom)):
+            for a in st.names:
+                names.append((a.asname or a.name).split('.')[0])
+        elif isinstance(st, (ast.FunctionDef, ast.AsyncFunctionDef, ast.ClassDef)):
+            names.append(st.name)
+        elif isinstance(st, ast.Delete):
+            for t in st.targets:
+                targets(t)
+        # walrus at module level
+        for sub in ast.walk(st) if not isinstance(st, (ast.FunctionDef, ast.AsyncFunctionDef, ast.ClassDef)) else []:
+            if isinstance(sub, ast.NamedExpr):
+                targets(sub.target)
+        return names
+
+    def bindings_in_module(self, rel, name):
+        return [st for st in self.module_level(self.tree(rel)) if name in self.bound_names(st)]
+
+    def hazards(self, name, defining_rel, defining_stmt):
+        """Every place of the package that could change what the module-level `name` of `defining_rel` holds
+        (conservative): other bindings in its module, `global name`, stores/deletes through an attribute
+        `.name`, subscript stores/deletes `name[...] = `, `.name[...] = `, the name as a string (setattr,
+        globals()[...], __dict__)."""
+        out = []
+        for st in self.bindings_in_module(defining_rel, name):
+            if st is not defining_stmt:
+                out.append('%s:%s re-binds %s' % (defining_rel, st.lineno, name))
+        for rel in sorted(self.sources):
+            for n in ast.walk(self.tree(rel)):
+                if isinstance(n, (ast.Global, ast.Nonlocal)) and name in n.names:
+                    out.append('%s:%s global %s' % (rel, n.lineno, name))
+                elif isinstance(n, ast.Attribute) and n.attr == name and isinstance(n.ctx, (ast.Store, ast.Del)):
+                    out.append('%s:%s store to .%s' % (rel, n.lineno, name))
+                elif isinstance(n, ast.Subscript) and isinstance(n.ctx, (ast.Store, ast.Del)):
+                    v = n.value
+                    if (isinstance(v, ast.Name) and v.id == name) or (isinstance(v, ast.Attribute) and v.attr == name):
+                        out.append('%s:%s subscript store to %s' % (rel, n.lineno, name))
+                elif isinstance(n, ast.Constant) and n.value == name and isinstance(n.value, str):
+                    out.append('%s:%s the name %s as a string' % (rel, n.lineno, name))
+        return out
+
+
+def package_of_repo(repo):
+    d = os.path.join(repo, 'pymeeus')
+    return Package({'pymeeus/' + fn: open(os.path.join(d, fn)).read() for fn in sorted(os.listdir(d)) if fn.endswith('.py')})
+
+
+# ------------------------------------------------------------------ stage 1: symbolic execution
+class SymList:
+    """A list written in the function (`[a, b]`, `[]`) and held by one local name; `append` is followed as
+    long as the list has not been handed to anything else."""
+
+    def __init__(self, elems):
+        self.elems = list(elems)
+        self.escaped = False
+
+
+#: methods that do not change their receiver (documented accessors / static computations)
+PURE_METHODS = {'rad', 'year', 'jde', 'minmax', 'geometric_heliocentric_position', 'perihelion_aphelion',
+                'orbital_elements_mean_equinox'}
+#: methods that change their receiver in place and return it (Angle.to_positive)
+SELF_MUTATORS = {'to_positive'}
+NUMERIC_CALLS = {'sin', 'cos', 'tan', 'sqrt', 'radians', 'degrees', 'round', 'abs', 'float', 'int', 'atan', 'atan2',
+                 'asin', 'acos'}
+UNPACK = '__unpack__'
+
+
+def unpack_item(value, i, n, loc):
+    """The i-th of the n values of `a, b, c = value` (kept distinct from `value[i]`: unpacking also checks n)."""
+    node = ast.Call(func=ast.Name(id=UNPACK, ctx=ast.Load()), args=[value, ast.Constant(value=i), ast.Constant(value=n)],
+                    keywords=[])
+    return ast.copy_location(node, loc)
+
+
+def is_numeric(node):
+    """Is the value certainly an int/float (so that `v += e` is `v = v + e`)?"""
+    if isinstance(node, ast.Constant):
+        return type(node.value) in (int, float)
+    if isinstance(node, ast.UnaryOp) and isinstance(node.op, (ast.USub, ast.UAdd)):
+        return is_numeric(node.operand)
+    if isinstance(node, ast.BinOp) and isinstance(node.op, (ast.Add, ast.Sub, ast.Mult, ast.Div)):
+        return is_numeric(node.left) and is_numeric(node.right)
+    if isinstance(node, ast.IfExp):
+        return is_numeric(node.body) and is_numeric(node.orelse)
+    if isinstance(node, ast.Call) and not node.keywords:
+        if isinstance(node.func, ast.Name) and node.func.id in NUMERIC_CALLS:
+            return True
+        if isinstance(node.func, ast.Attribute) and node.func.attr in ('year', 'rad', 'jde') and not node.args:
+            return True       # Epoch.year(), Angle.rad(), Epoch.jde(): documented to return a float
+    return False
+
+
+class Sym:
+    """Symbolic execution of one function of one module."""
+
+    MAX_DEPTH = 6
+
+    def __init__(self, ctx, pkg, rel, cls_node):
+        self.ctx, self.pkg, self.rel = ctx, pkg, rel
+        self.tree = pkg.tree(rel)
+        self.cls = cls_node
+        self.events = []        # ('raise', test, exception name, node) | ('call', node)
+        self.cond = 0           # > 0 while evaluating something that Python evaluates only conditionally
+        self.depth = 0
+        self._const = {}
+        self._helpers = {}
+
+    def fail(self, node, msg):
+        fail(self.ctx, node, msg)
+
+    # -- module-level constants and helpers --------------------------------------------------
+    def module_constant(self, name):
+        """Value node of a module-level constant (number or tuple of numbers) that is never re-bound; None if
+        `name` is not such a constant."""
+        if name in self._const:
+            return self._const[name]
+        val = None
+        binds = self.pkg.bindings_in_module(self.rel, name)
+        cands = [st for st in binds if isinstance(st, ast.Assign) and len(st.targets) == 1
+                 and isinstance(st.targets[0], ast.Name) and st in self.tree.body]
+        if cands:
+            st = cands[0]
+
+            def number(n):
+                if isinstance(n, ast.UnaryOp) and isinstance(n.op, ast.USub):
+                    n = n.operand
+                return isinstance(n, ast.Constant) and type(n.value) in (int, float)
+            v = st.value
+            if number(v) or (isinstance(v, ast.Tuple) and v.elts and all(number(e) for e in v.elts)):
+                hz = self.pkg.hazards(name, self.rel, st)
+                if hz:
+                    self.fail(st, 'module-level constant %s may be modified (%s); its value cannot be propagated'
+                              % (name, '; '.join(hz[:3])))
+                val = v
+        self._const[name] = val
+        return val
+
+    def helper(self, func):
+        """FunctionDef of a private helper the call `func(...)` refers to, or None (then the call stays opaque)."""
+        if isinstance(func, ast.Name):
+            key, name, owner = ('m', func.id), func.id, self.tree
+            defs = [st for st in self.tree.body if isinstance(st, ast.FunctionDef) and st.name == name]
+        elif (isinstance(func, ast.Attribute) and isinstance(func.value, ast.Name) and func.value.id == self.ctx['cls']
+              and func.attr.startswith('_') and not func.attr.startswith('__')):
+            key, name, owner = ('c', func.attr), func.attr, self.cls
+            defs = [st for st in self.cls.body if isinstance(st, ast.FunctionDef) and st.name == name]
+        else:
+            return None
+        if key in self._helpers:
+            return self._helpers[key]
+        fn = None
+        if defs:
+            if len(defs) != 1:
+                self.fail(func, 'helper %s is defined %d times' % (name, len(defs)))
+            fn = defs[0]
+            want = [] if key[0] == 'm' else ['staticmethod']
+            if [ast.unparse(d) for d in fn.decorator_list] != want:
+                self.fail(fn, 'helper %s: decorators %s not supported' % (name, [ast.unparse(d) for d in fn.decorator_list]))
+            if key[0] == 'm':
+                hz = self.pkg.hazards(name, self.rel, fn)
+            else:
+                hz = [h for h in self.pkg.hazards(name, self.rel, fn) if 're-binds' not in h]
+                if len([st for st in self.cls.body if name in Package.bound_names(st)]) != 1:
+                    hz.append('bound more than once in class %s' % self.ctx['cls'])
+            if hz:
+                self.fail(fn, 'helper %s may be replaced at run time (%s); it cannot be inlined' % (name, '; '.join(hz[:3])))
+        self._helpers[key] = fn
+        return fn
+
+    # -- expressions ----------------------------------------------------------------------------
+    def ev(self, node, env, keep_list=False):
+        """The expression `node` with every local name replaced by what it holds."""
+        if isinstance(node, ast.Constant):
+            return node
+        if isinstance(node, ast.Name):
+            if not isinstance(node.ctx, ast.Load):
+                self.fail(node, 'unexpected store')
+            if node.id in env:
+                v = env[node.id]
+                if isinstance(v, SymList):
+                    if keep_list:
+                        return v
+                    v.escaped = True
+                    return ast.copy_location(ast.List(elts=list(v.elems), ctx=ast.Load()), node)
+                return v
+            if node.id in env.get('__locals__', ()):
+                self.fail(node, 'local name `%s` is read before it is assigned on this path' % node.id)
+            c = self.module_constant(node.id)
+            return c if c is not None else node
+        if isinstance(node, ast.UnaryOp):
+            v = self.ev(node.operand, env)
+            return ast.copy_location(ast.UnaryOp(op=node.op, operand=v), node)
+        if isinstance(node, ast.BinOp):
+            l = self.ev(node.left, env)
+            r = self.ev(node.right, env)
+            return ast.copy_location(ast.BinOp(left=l, op=node.op, right=r), node)
+        if isinstance(node, ast.BoolOp):
+            vals = [self.ev(node.values[0], env)]
+            self.cond += 1
+            vals += [self.ev(v, env) for v in node.values[1:]]
+            self.cond -= 1
+            return ast.copy_location(ast.BoolOp(op=node.op, values=vals), node)
+        if isinstance(node, ast.Compare):
+            l = self.ev(node.left, env)
+            cs = [self.ev(c, env) for c in node.comparators]
+            return ast.copy_location(ast.Compare(left=l, ops=node.ops, comparators=cs), node)
+        if isinstance(node, ast.IfExp):
+            t = self.ev(node.test, env)
+            self.cond += 1
+            b = self.ev(node.body, env)
+            o = self.ev(node.orelse, env)
+            self.cond -= 1
+            return self.ifexp(t, b, o, node)
+        if isinstance(node, (ast.Tuple, ast.List)):
+            if any(isinstance(e, ast.Starred) for e in node.elts):
+                self.fail(node, 'starred element')
+            elts = [self.ev(e, env) for e in node.elts]
+            return ast.copy_location(type(node)(elts=elts, ctx=ast.Load()), node)
+        if isinstance(node, ast.Attribute):
+            v = self.ev(node.value, env)
+            return ast.copy_location(ast.Attribute(value=v, attr=node.attr, ctx=ast.Load()), node)
+        if isinstance(node, ast.Subscript):
+            v = self.ev(node.value, env)
+            s = self.ev(node.slice, env)
+            idx = None
+            if isinstance(s, ast.Constant) and type(s.value) is int:
+                idx = s.value
+            elif isinstance(s, ast.UnaryOp) and isinstance(s.op, ast.USub) and isinstance(s.operand, ast.Constant) \
+                    and type(s.operand.value) is int:
+                idx = -s.operand.value
+            if isinstance(v, ast.Tuple) and idx is not None and -len(v.elts) <= idx < len(v.elts):
+                return v.elts[idx]
+            return ast.copy_location(ast.Subscript(value=v, slice=s, ctx=ast.Load()), node)
+        if isinstance(node, ast.Call):
+            return self.call(node, env)
+        self.fail(node, 'expression `%s` is outside the subset the translator executes' % ast.unparse(node)[:60])
+
+    def ifexp(self, test, body, orelse, loc):
+        # `B if not c else A` == `A if c else B`
+        while isinstance(test, ast.UnaryOp) and isinstance(test.op, ast.Not):
+            test, body, orelse = test.operand, orelse, body
+        if same(body, orelse):
+            return body
+        return ast.copy_location(ast.IfExp(test=test, body=body, orelse=orelse), loc)
+
+    def call(self, node, env):
+        if any(isinstance(a, ast.Starred) for a in node.args) or any(k.arg is None for k in node.keywords):
+            self.fail(node, '*args / **kwargs in a call')
+        if isinstance(node.func, ast.Name) and (node.func.id in env or node.func.id in env.get('__locals__', ())):
+            self.fail(node, 'call of a local name')
+        fn = self.helper(node.func)
+        args = [self.ev(a, env) for a in node.args]
+        kws = [(k.arg, self.ev(k.value, env)) for k in node.keywords]
+        if fn is not None:
+            return self.inline(fn, args, kws, node)
+        func = node.func
+        receiver = None
+        if isinstance(func, ast.Attribute):
+            recv = self.ev(func.value, env)
+            if isinstance(func.value, ast.Name) and func.value.id in env:
+                # the receiver is an object held by a local name: it stays reachable after the call
+                if func.attr in SELF_MUTATORS:
+                    receiver = recv
+                elif func.attr not in PURE_METHODS:
+                    self.fail(node, 'method `%s` called on the object held by `%s`: it may change the object'
+                              % (func.attr, func.value.id))
+            func = ast.copy_location(ast.Attribute(value=recv, attr=func.attr, ctx=ast.Load()), func)
+        elif not isinstance(func, ast.Name):
+            self.fail(node, 'call of `%s`' % ast.unparse(func)[:40])
+        out = ast.copy_location(ast.Call(func=func, args=args, keywords=[ast.keyword(arg=a, value=v) for a, v in kws]), node)
+        if receiver is not None:
+            # `x.to_positive()` changes x in place and returns it: every name holding that object now holds the result
+            for name in list(env):
+                if env[name] is receiver:
+                    env[name] = out
+        if not (isinstance(func, ast.Name) and func.id == 'isinstance'):      # isinstance() cannot raise
+            self.events.append(('call', out, self.cond))
+        return out
+
+    def inline(self, fn, args, kws, at):
+        """Execute the helper `fn` with its parameters bound to the (already evaluated) arguments."""
+        if self.depth >= self.MAX_DEPTH:
+            self.fail(at, 'helper calls nested too deeply (recursion?)')
+        a = fn.args
+        if a.vararg or a.kwarg or a.kwonlyargs or a.posonlyargs:
+            self.fail(fn, 'helper %s: parameter kinds not supported' % fn.name)
+        names = [x.arg for x in a.args]
+        if len(args) > len(names):
+            self.fail(at, 'too many arguments for %s' % fn.name)
+        env = dict(zip(names, args))
+        for k, v in kws:
+            if k not in names or k in env:
+                self.fail(at, 'bad keyword %s for %s' % (k, fn.name))
+            env[k] = v
+        ndef = len(a.defaults)
+        for i, d in enumerate(a.defaults):
+            p = names[len(names) - ndef + i]
+            if p not in env:
+                if not isinstance(d, ast.Constant):
+                    self.fail(fn, 'helper %s: default of %s is not a constant' % (fn.name, p))
+                env[p] = d
+        missing = [p for p in names if p not in env]
+        if missing:
+            self.fail(at, 'missing arguments %s for %s' % (missing, fn.name))
+        env['__locals__'] = self.local_names(fn)
+        self.depth += 1
+        kind, val = self.block(body_of(fn), env)
+        self.depth -= 1
+        if kind != 'ret':
+            return ast.copy_location(ast.Constant(value=None), at)
+        return val
+
+    # -- statements -----------------------------------------------------------------------------
+    def block(self, stmts, env):
+        """Execute statements; -> ('ret', value) or ('fall', None); `env` is updated in place."""
+        for idx, st in enumerate(stmts):
+            if isinstance(st, ast.Expr) and isinstance(st.value, ast.Constant) and isinstance(st.value.value, str):
+                continue
+            if isinstance(st, ast.Pass):
+                continue
+            if isinstance(st, ast.Return):
+                if idx != len(stmts) - 1:
+                    self.fail(stmts[idx + 1], 'statement after return')
+                if st.value is None:
+                    return ('ret', ast.copy_location(ast.Constant(value=None), st))
+                return ('ret', self.ev(st.value, env))
+            if isinstance(st, ast.Assign):
+                self.assign(st, env)
+            elif isinstance(st, ast.AugAssign):
+                self.augassign(st, env)
+            elif isinstance(st, ast.If):
+                r = self.if_(st, stmts[idx + 1:], env)
+                if r is not None:
+                    return r
+            elif isinstance(st, ast.For):
+                self.for_(st, env)
+            elif isinstance(st, ast.Expr):
+                self.expr_stmt(st, env)
+            else:
+                self.fail(st, 'statement `%s` is outside the subset the translator executes' % ast.unparse(st)[:60])
+        return ('fall', None)
+
+    def bind(self, target, value, env, st):
+        if isinstance(target, ast.Name):
+            env[target.id] = value
+        else:
+            self.fail(st, 'assignment target `%s` not supported' % ast.unparse(target)[:40])
+
+    def assign(self, st, env):
+        if len(st.targets) != 1:
+            self.fail(st, 'chained assignment')
+        t = st.targets[0]
+        if isinstance(t, ast.Name):
+            if isinstance(st.value, ast.List) and not any(isinstance(e, ast.Starred) for e in st.value.elts):
+                env[t.id] = SymList([self.ev(e, env) for e in st.value.elts])
+            else:
+                env[t.id] = self.ev(st.value, env)
+            return
+        if isinstance(t, (ast.Tuple, ast.List)) and all(isinstance(e, ast.Name) for e in t.elts):
+            n = len(t.elts)
+            v = self.ev(st.value, env)          # the whole right-hand side first, as Python does
+            if isinstance(v, (ast.Tuple, ast.List)):
+                if len(v.elts) != n:
+                    self.fail(st, 'unpacking %d values into %d names' % (len(v.elts), n))
+                vals = list(v.elts)
+            else:
+                vals = [unpack_item(v, i, n, st) for i in range(n)]
+            for e, x in zip(t.elts, vals):
+                env[e.id] = x
+            return
+        self.fail(st, 'assignment target `%s` not supported' % ast.unparse(t)[:40])
+
+    def augassign(self, st, env):
+        if not isinstance(st.target, ast.Name) or st.target.id not in env:
+            self.fail(st, 'augmented assignment to something that is not a local name')
+        if not isinstance(st.op, (ast.Add, ast.Sub, ast.Mult, ast.Div)):
+            self.fail(st, 'augmented operator not supported')
+        cur = env[st.target.id]
+        if isinstance(cur, SymList) or not is_numeric(cur):
+            self.fail(st, 'augmented assignment: `%s` is not known to hold a number, `x op= e` may not be `x = x op e`'
+                      % st.target.id)
+        rhs = self.ev(st.value, env)
+        # v op= e  ==  v = v op e   for numbers: the left operand is the old value, Python's own order
+        env[st.target.id] = ast.copy_location(ast.BinOp(left=cur, op=st.op, right=rhs), st)
+
+    def is_raise(self, body):
+        if len(body) == 1 and isinstance(body[0], ast.Raise) and body[0].cause is None:
+            e = body[0].exc
+            if isinstance(e, ast.Call) and isinstance(e.func, ast.Name):
+                return e.func.id
+            if isinstance(e, ast.Name):
+                return e.id
         return None
 
-    def type_guard(self):
-        st = self.peek()
-        ok = (isinstance(st, ast.If) and not st.orelse and len(st.body) == 1 and is_raise(st.body[0], 'TypeError')
-              and ast.unparse(st.test) == 'not isinstance(epoch, Epoch)')
-        if not ok:
-            fail(self.ctx, st, 'expected `if not isinstance(epoch, Epoch): raise TypeError(...)`')
-        self.i += 1
+    def if_(self, st, rest, env):
+        test = self.ev(st.test, env)
+        exc = self.is_raise(st.body)
+        if exc is not None:
+            if self.cond:
+                self.fail(st, 'conditional raise inside a conditional region')
+            self.events.append(('raise', test, exc, st))
+            if st.orelse:       # `if c: raise X  else: S`  ==  `if c: raise X` ; S
+                return self.block_tail(st.orelse, rest, env)
+            return None
+        exc2 = self.is_raise(st.orelse) if st.orelse else None
+        if exc2 is not None:    # `if c: S else: raise X`
+            if self.cond:
+                self.fail(st, 'conditional raise inside a conditional region')
+            # the test is only used as a condition, so `not not c` is `c`
+            if isinstance(test, ast.UnaryOp) and isinstance(test.op, ast.Not):
+                neg = test.operand
+            else:
+                neg = ast.copy_location(ast.UnaryOp(op=ast.Not(), operand=test), st)
+            self.events.append(('raise', neg, exc2, st))
+            return self.block_tail(st.body, rest, env)
+        # both branches are ordinary code: run each on a copy, merge with conditional expressions
+        e1, e2 = self.copy_env(env), self.copy_env(env)
+        self.cond += 1
+        k1, v1 = self.block(st.body, e1)
+        k2, v2 = self.block(st.orelse, e2)
+        self.cond -= 1
+        if k1 == 'ret' or k2 == 'ret':
+            # a branch returns: the statements after the `if` belong to the branch(es) that fall through
+            self.cond += 1
+            if k1 != 'ret':
+                k1, v1 = self.block(list(rest), e1)
+            if k2 != 'ret':
+                k2, v2 = self.block(list(rest), e2)
+            self.cond -= 1
+            if k1 != 'ret' or k2 != 'ret':
+                self.fail(st, 'a path falls off the end of the function after a conditional return')
+            return ('ret', self.ifexp(test, v1, v2, st))
+        for name in sorted((set(e1) | set(e2)) - {'__locals__'}):
+            a, b = e1.get(name), e2.get(name)
+            if a is None or b is None:
+                # bound on one path only: usable only on that path - drop it, a later use is rejected as unknown name
+                env.pop(name, None)
+                env[name] = ast.copy_location(ast.Name(id='__unbound_%s__' % name, ctx=ast.Load()), st)
+                continue
+            if isinstance(a, SymList) or isinstance(b, SymList):
+                if a is b:
+                    env[name] = a
+                    continue
+                self.fail(st, 'list `%s` changed inside a branch' % name)
+            env[name] = a if same(a, b) else self.ifexp(test, a, b, st)
+        return None
 
-    def done(self):
-        if self.i != len(self.stmts):
-            fail(self.ctx, self.stmts[self.i], 'unexpected extra statement `%s`' % ast.unparse(self.stmts[self.i])[:80])
+    def block_tail(self, stmts, rest, env):
+        k, v = self.block(stmts, env)
+        if k == 'ret':
+            if rest:
+                self.fail(rest[0], 'statement after return')
+            return (k, v)
+        return None
+
+    @staticmethod
+    def copy_env(env):
+        return dict(env)
+
+    def for_(self, st, env):
+        if st.orelse or not isinstance(st.target, ast.Name):
+            self.fail(st, 'for loop with else / structured target')
+        it = self.ev(st.iter, env, keep_list=True)
+        if isinstance(it, SymList):
+            elems = list(it.elems)
+        elif isinstance(it, (ast.List, ast.Tuple)):
+            elems = list(it.elts)
+        else:
+            self.fail(st, 'for loop over something that is not a list written in this function')
+        for e in elems:
+            env[st.target.id] = e
+            k, _ = self.block(st.body, env)
+            if k == 'ret':
+                self.fail(st, 'return inside a loop')
+            if isinstance(it, SymList) and it.elems != elems:
+                self.fail(st, 'the list is modified while it is iterated')
+
+    def expr_stmt(self, st, env):
+        v = st.value
+        if isinstance(v, ast.Call) and isinstance(v.func, ast.Attribute) and v.func.attr == 'append' \
+                and isinstance(v.func.value, ast.Name) and isinstance(env.get(v.func.value.id), SymList) \
+                and len(v.args) == 1 and not v.keywords:
+            lst = env[v.func.value.id]
+            if lst.escaped:
+                self.fail(st, 'append to a list that has already been handed to something else')
+            if self.cond:
+                self.fail(st, 'append inside a conditional region')
+            lst.elems.append(self.ev(v.args[0], env))
+            return
+        if isinstance(v, ast.Call) and self.helper(v.func) is not None:
+            self.ev(v, env)
+            return
+        if isinstance(v, ast.Call) and isinstance(v.func, ast.Attribute) and v.func.attr in SELF_MUTATORS \
+                and isinstance(v.func.value, ast.Name) and v.func.value.id in env and not self.cond:
+            self.ev(v, env)     # `x.to_positive()` as a statement: x now holds the changed object (see `call`)
+            return
+        self.fail(st, 'expression statement `%s` (possible side effect) is outside the subset' % ast.unparse(st)[:60])
+
+    # -- a whole function -----------------------------------------------------------------------
+    @staticmethod
+    def local_names(fn):
+        """Names that are local to `fn` (assigned somewhere in it): never looked up at module level."""
+        out = set()
+        for n in ast.walk(fn):
+            if isinstance(n, ast.Name) and isinstance(n.ctx, (ast.Store, ast.Del)):
+                out.add(n.id)
+            elif isinstance(n, (ast.Global, ast.Nonlocal)):
+                raise Reject('%s: global/nonlocal statement in a function the translator executes' % fn.name)
+            elif isinstance(n, (ast.FunctionDef, ast.Lambda, ast.ClassDef)) and n is not fn:
+                raise Reject('%s: nested function/class in a function the translator executes' % fn.name)
+        return frozenset(out - {a.arg for a in fn.args.args})
+
+    def run(self, fn):
+        env = {a.arg: ast.copy_location(ast.Name(id=a.arg, ctx=ast.Load()), a) for a in fn.args.args}
+        env['__locals__'] = self.local_names(fn)
+        kind, val = self.block(body_of(fn), env)
+        if kind != 'ret':
+            self.fail(fn, 'the function can fall off its end')
+        for n in ast.walk(val):
+            if isinstance(n, ast.Name) and n.id.startswith('__unbound_'):
+                self.fail(n, 'use of a name that is bound on one path only')
+        return val
 
 
-# ------------------------------------------------------------------ expression trees
-def trig_arg(ctx, node, var_m, auxnames):
-    if var_m and isinstance(node, ast.Name) and node.id == 'm':
-        return '.m'
-    if var_m and isinstance(node, ast.BinOp) and isinstance(node.op, ast.Mult) \
-            and isinstance(node.right, ast.Name) and node.right.id == 'm':
-        j = literal(ctx, node.left)
-        if j is not None:
-            return '(.jm %s)' % lean_dec(j)
-    if isinstance(node, ast.Name) and node.id in auxnames:
-        return '(.aux %d)' % auxnames.index(node.id)
-    # Earth: sin(a1.rad())
-    if isinstance(node, ast.Call) and not node.args and not node.keywords and isinstance(node.func, ast.Attribute) \
-            and node.func.attr == 'rad' and isinstance(node.func.value, ast.Name) and node.func.value.id in auxnames:
-        return '(.aux %d)' % auxnames.index(node.func.value.id)
-    fail(ctx, node, 'argument of sin/cos not recognised: `%s`' % ast.unparse(node))
-
-
-def fexpr(ctx, node, var, var_m, auxnames):
-    lit = literal(ctx, node)
-    if lit is not None:
-        return '(.lit %s)' % lean_dec(lit)
-    if isinstance(node, ast.Name) and node.id == var:
-        return '.x'
-    if isinstance(node, ast.UnaryOp) and isinstance(node.op, ast.USub):
-        return '(.neg %s)' % fexpr(ctx, node.operand, var, var_m, auxnames)
-    if isinstance(node, ast.BinOp) and type(node.op) in (ast.Add, ast.Sub, ast.Mult):
-        c = {ast.Add: 'add', ast.Sub: 'sub', ast.Mult: 'mul'}[type(node.op)]
-        return '(.%s %s %s)' % (c, fexpr(ctx, node.left, var, var_m, auxnames), fexpr(ctx, node.right, var, var_m, auxnames))
-    if isinstance(node, ast.Call) and isinstance(node.func, ast.Name) and node.func.id in ('sin', 'cos') \
-            and len(node.args) == 1 and not node.keywords:
-        return '(.%s %s)' % (node.func.id, trig_arg(ctx, node.args[0], var_m, auxnames))
-    fail(ctx, node, 'expression not in the accepted subset (literals, %s, + - *, sin/cos of m, j*m or an auxiliary angle): `%s`'
-         % (var, ast.unparse(node)[:80]))
-
-
-# ------------------------------------------------------------------ the three kinds of finder
+# ------------------------------------------------------------------ stage 2: the shapes of the finders
 def body_of(fn):
     stmts = list(fn.body)
     if stmts and isinstance(stmts[0], ast.Expr) and isinstance(stmts[0].value, ast.Constant) \
@@ -245,151 +800,260 @@ def check_args(ctx, fn, names, defaults):
         fail(ctx, fn, 'expected exactly the decorator @staticmethod')
 
 
-def translate_ch36(ctx, fn):
+def check_events(ctx, fn, sx, range_guard):
+    """The type guard comes first, before any call; [the range guard comes next, after `epoch.year()` only];
+    nothing else can raise conditionally.  -> the test of the range guard (or None)."""
+    ev = sx.events
+    if not ev or ev[0][0] != 'raise' or ev[0][2] != 'TypeError' or ast.unparse(ev[0][1]) != 'not isinstance(epoch, Epoch)':
+        fail(ctx, fn, 'expected `if not isinstance(epoch, Epoch): raise TypeError(...)` before anything else')
+    rest = ev[1:]
+    test = None
+    if range_guard:
+        i = 0
+        while i < len(rest) and rest[i][0] == 'call' and ast.unparse(rest[i][1]) == 'epoch.year()':
+            i += 1
+        if i >= len(rest) or rest[i][0] != 'raise' or rest[i][2] != 'ValueError':
+            fail(ctx, fn, 'expected `if y < <lit> or y > <lit>: raise ValueError(...)` right after `y = epoch.year()`')
+        test = rest[i][1]
+        rest = rest[i + 1:]
+    extra = [e for e in rest if e[0] == 'raise']
+    if extra:
+        fail(ctx, extra[0][3], 'unexpected conditional raise of %s' % extra[0][2])
+    return test
+
+
+class Series:
+    """Translation of a `corr`/`elon` expression into the FExpr constructors of the record."""
+
+    def __init__(self, ctx, is_x, is_m, aux_of, varname):
+        self.ctx, self.is_x, self.is_m, self.aux_of, self.varname = ctx, is_x, is_m, aux_of, varname
+        self.aux = []           # [(c0, c1)] in the order of first use
+
+    def trig_arg(self, node):
+        if self.is_m is not None:
+            if self.is_m(node):
+                return '.m'
+            if isinstance(node, ast.BinOp) and isinstance(node.op, ast.Mult) and self.is_m(node.right):
+                j = literal(self.ctx, node.left)
+                if j is not None:
+                    return '(.jm %s)' % lean_dec(j)
+        a = self.aux_of(node)
+        if a is not None:
+            for i, b in enumerate(self.aux):
+                if dec_value(b[0]) == dec_value(a[0]) and dec_value(b[1]) == dec_value(a[1]):
+                    return '(.aux %d)' % i
+            self.aux.append(a)
+            return '(.aux %d)' % (len(self.aux) - 1)
+        fail(self.ctx, node, 'argument of sin/cos not recognised: `%s`' % ast.unparse(node)[:80])
+
+    def fexpr(self, node):
+        lit = literal(self.ctx, node)
+        if lit is not None:
+            return '(.lit %s)' % lean_dec(lit)
+        if self.is_x(node):
+            return '.x'
+        if isinstance(node, ast.UnaryOp) and isinstance(node.op, ast.USub):
+            return '(.neg %s)' % self.fexpr(node.operand)
+        if isinstance(node, ast.BinOp) and type(node.op) in (ast.Add, ast.Sub, ast.Mult):
+            c = {ast.Add: 'add', ast.Sub: 'sub', ast.Mult: 'mul'}[type(node.op)]
+            return '(.%s %s %s)' % (c, self.fexpr(node.left), self.fexpr(node.right))
+        if isinstance(node, ast.Call) and isinstance(node.func, ast.Name) and node.func.id in ('sin', 'cos') \
+                and len(node.args) == 1 and not node.keywords:
+            return '(.%s %s)' % (node.func.id, self.trig_arg(node.args[0]))
+        fail(self.ctx, node, 'expression not in the accepted subset (literals, %s, + - *, sin/cos of m, j*m or an auxiliary '
+                             'angle): `%s`' % (self.varname, ast.unparse(node)[:80]))
+
+
+def translate_ch36(ctx, sx, fn):
     check_args(ctx, fn, ['epoch'], [])
-    b = Body(ctx, body_of(fn))
-    b.type_guard()
-    b.expect('y = epoch.year()')
-    st = b.peek()
-    caps = {}
-    ok = (isinstance(st, ast.If) and not st.orelse and len(st.body) == 1 and is_raise(st.body[0], 'ValueError')
-          and match(P('y < _L1 or y > _L2').value, st.test, caps, ctx))
-    if not ok:
-        fail(ctx, st, 'expected `if y < <lit> or y > <lit>: raise ValueError(...)`')
-    b.i += 1
-    rec = {'ylo': caps['_L1'], 'yhi': caps['_L2']}
-    rec['A'] = b.expect('a = _L1')['_L1']
-    rec['B'] = b.expect('b = _L1')['_L1']
-    rec['M0'] = b.expect('m0 = _L1')['_L1']
-    rec['M1'] = b.expect('m1 = _L1')['_L1']
-    c = b.expect('k = round((_L1 * y + _L2 - a) / b)')
+    ret = sx.run(fn)
+    test = check_events(ctx, fn, sx, True)
+    ep, el = ret, None
+    if isinstance(ret, ast.Tuple) and len(ret.elts) == 2:
+        ep, el = ret.elts
+    c = {}
+    if not match(PE('Epoch(_E1 + _E2)'), ep, c, ctx):
+        fail(ctx, fn, 'the returned value `%s` is not `Epoch(jde0 + corr)`' % ast.unparse(ep)[:80])
+    jde0, corr = c['_E1'], c['_E2']
+    c = {}
+    if not match(PE('_L1 + _E1 * _L2'), jde0, c, ctx):
+        fail(ctx, fn, 'jde0 `%s` is not `a + k * b`' % ast.unparse(jde0)[:80])
+    rec = {'A': c['_L1'], 'B': c['_L2']}
+    k = c['_E1']
+    c = {'_L3': rec['A'], '_L4': rec['B']}
+    if not match(PE('round((_L1 * _E1 + _L2 - _L3) / _L4)'), k, c, ctx):
+        fail(ctx, fn, 'the period count `%s` is not `round((<lit> * y + <lit> - a) / b)`' % ast.unparse(k)[:100])
     rec['yc'], rec['y0'] = c['_L1'], c['_L2']
-    b.expect('jde0 = a + k * b')
-    b.expect('m = m0 + k * m1')
-    b.expect('m = Angle(m).to_positive()')
-    b.expect('m = m.rad()')
-    c = b.expect('t = (jde0 - _L1) / _L2')
-    rec['tj'], rec['tc'] = c['_L1'], c['_L2']
-    # auxiliary angles: all `X = c0 + c1 * t` first, then all `X = Angle(X).rad()` in the same order
-    auxnames, aux = [], []
-    while True:
-        st = b.peek()
-        if not (isinstance(st, ast.Assign) and len(st.targets) == 1 and isinstance(st.targets[0], ast.Name)):
-            break
-        name = st.targets[0].id
-        if name in ('corr', 'elon', 'to_return') or name in auxnames:
-            break
-        c = {}
-        if not match(P('_ = _L1 + _L2 * t').value, st.value, c, ctx):
-            fail(ctx, st, 'auxiliary angle `%s` is not `<lit> + <lit> * t`' % ast.unparse(st)[:80])
-        if name in ('a', 'b', 'm', 'm0', 'm1', 'k', 't', 'y', 'jde0', 'epoch'):
-            fail(ctx, st, 'auxiliary angle reuses the name %s' % name)
-        auxnames.append(name)
-        aux.append((c['_L1'], c['_L2']))
-        b.i += 1
-    for name in auxnames:
-        b.expect('%s = Angle(%s).rad()' % (name, name))
-    rec['aux'] = aux
-    c = b.expect('corr = _E1')
-    rec['corr'] = fexpr(ctx, c['_E1'], 't', True, auxnames)
+    y = c['_E1']
+    if ast.unparse(y) != 'epoch.year()':
+        fail(ctx, fn, 'the period count is computed from `%s`, not from `epoch.year()`' % ast.unparse(y)[:60])
+    c = {'_S1': y}
+    if not match(PE('_S1 < _L1 or _S1 > _L2'), test, c, ctx):
+        fail(ctx, fn, 'the range guard `%s` is not `y < <lit> or y > <lit>`' % ast.unparse(test)[:80])
+    rec['ylo'], rec['yhi'] = c['_L1'], c['_L2']
+    shared = {'_S1': jde0, '_S2': k}       # tj, tc, M0, M1 must be the same literals at every occurrence
+
+    def transactional(pat):
+        def test(n):
+            trial = dict(shared)
+            if match(PE(pat), n, trial, ctx):
+                shared.update(trial)
+                return True
+            return False
+        return test
+    is_t = transactional('(_S1 - _L1) / _L2')
+    is_m = transactional('Angle(_L3 + _S2 * _L4).to_positive().rad()')
+
+    def aux_of(n):
+        cc = {'_F1': is_t}
+        if match(PE('Angle(_L1 + _L2 * _F1).rad()'), n, cc, ctx):
+            return (cc['_L1'], cc['_L2'])
+        return None
+    ser = Series(ctx, is_t, is_m, aux_of, 't')
+    rec['corr'] = ser.fexpr(corr)
     rec['elon'] = None
-    if b.try_('elon = Angle(elon).to_positive()') is not None:
-        fail(ctx, fn, 'elon converted before it is computed')
-    c = b.try_('elon = _E1')
-    if c is not None:
-        rec['elon'] = fexpr(ctx, c['_E1'], 't', True, auxnames)
-        b.expect('elon = Angle(elon).to_positive()')
-    b.expect('to_return = jde0 + corr')
-    if rec['elon'] is None:
-        b.expect('return Epoch(to_return)')
-    else:
-        b.expect('return (Epoch(to_return), elon)')
-    b.done()
+    if el is not None:
+        c = {}
+        if not match(PE('Angle(_E1).to_positive()'), el, c, ctx):
+            fail(ctx, fn, 'the second returned value `%s` is not `Angle(elon).to_positive()`' % ast.unparse(el)[:60])
+        rec['elon'] = ser.fexpr(c['_E1'])
+    for key, what in (('_L1', 't = (jde0 - <lit>) / <lit>'), ('_L3', 'the mean anomaly Angle(m0 + k * m1).to_positive().rad()')):
+        if key not in shared:
+            fail(ctx, fn, 'the series never uses %s' % what)
+    rec['tj'], rec['tc'], rec['M0'], rec['M1'] = shared['_L1'], shared['_L2'], shared['_L3'], shared['_L4']
+    rec['aux'] = ser.aux
     if (rec['elon'] is not None) != (ctx['meth'] in ELONG):
         fail(ctx, fn, 'only the elongation finders return an angle')
     return rec
 
 
-def translate_pa(ctx, fn):
+def translate_pa(ctx, sx, fn):
     check_args(ctx, fn, ['epoch', 'perihelion'], ['True'])
-    b = Body(ctx, body_of(fn))
-    b.type_guard()
-    c = b.expect('k = _L1 * (epoch.year() - _L2)')
-    rec = {'C': c['_L1'], 'Y0': c['_L2']}
-    st = b.peek()
-    caps = {}
-    ok = (isinstance(st, ast.If) and ast.unparse(st.test) == 'perihelion' and len(st.body) == 1 and len(st.orelse) == 1
-          and match(P('k = round(k)'), st.body[0], {}, ctx)
-          and match(P('k = round(k + _L1) - _L1'), st.orelse[0], caps, ctx))
-    if not ok:
-        fail(ctx, st, 'expected `if perihelion: k = round(k) else: k = round(k + h) - h`')
-    rec['half'] = caps['_L1']
-    b.i += 1
-    c = b.try_('jde = _L1 + k * _L2')
-    if c is not None:
-        rec['J0'], rec['P'], rec['Q'] = c['_L1'], c['_L2'], (0, 0)
+    ret = sx.run(fn)
+    check_events(ctx, fn, sx, False)
+    c = {}
+    if not match(PE('Epoch(Interpolation([_E1, _E2, _E3], [_E4, _E5, _E6]).minmax())'), ret, c, ctx):
+        fail(ctx, fn, 'the returned value is not `Epoch(Interpolation([jde - d, jde, jde + d], [r_b, r, r_a]).minmax())`')
+    jde = c['_E2']
+    d = {'_S1': jde}
+    if not (match(PE('_S1 - _L1'), c['_E1'], d, ctx) and match(PE('_S1 + _L1'), c['_E3'], d, ctx)):
+        fail(ctx, fn, 'the abscissae are not `jde - <lit>`, `jde`, `jde + <lit>`')
+    rec = {'delta': d['_L1']}
+    for x, r in ((c['_E1'], c['_E4']), (c['_E2'], c['_E5']), (c['_E3'], c['_E6'])):
+        if not match(PE('__unpack__(_X.geometric_heliocentric_position(Epoch(_S1)), 2, 3)'), r, {'_S1': x}, ctx):
+            fail(ctx, fn, 'an ordinate `%s` is not the radius vector `l, b, r = %s.geometric_heliocentric_position('
+                          'Epoch(<abscissa>))`' % (ast.unparse(r)[:60], ctx['cls']))
+    # Earth only: jde += corr with corr chosen by `perihelion`
+    corr_p = corr_a = None
+    base = jde
+    c = {}
+    if match(PE('_E1 + (_E2 if perihelion else _E3)'), jde, c, ctx):
+        base, corr_p, corr_a = c['_E1'], c['_E2'], c['_E3']
+    # the count k: the left operand of the first product
+    c = {}
+    if not match(PE('_L1 + _E1 * _E2'), base, c, ctx):
+        fail(ctx, fn, 'the first approximation `%s` is not `<lit> + k * ...`' % ast.unparse(base)[:80])
+    k = c['_E1']
+    rec['J0'] = c['_L1']
+    s = {'_S1': k}
+    c = dict(s)
+    if match(PE('_L1 + _S1 * _L2'), base, c, ctx):
+        rec['P'], rec['Q'] = c['_L2'], (0, 0)
     else:
-        c = b.try_('jde = _L1 + k * (_L2 + k * _L3)')
-        if c is not None:
-            rec['J0'], rec['P'], rec['Q'] = c['_L1'], c['_L2'], c['_L3']
+        c = dict(s)
+        if match(PE('_L1 + _S1 * (_L2 + _S1 * _L3)'), base, c, ctx):
+            rec['P'], rec['Q'] = c['_L2'], c['_L3']
         else:
-            c = b.expect('jde = _L1 + k * (_L2 - k * _L3)')
-            rec['J0'], rec['P'], rec['Q'] = c['_L1'], c['_L2'], (-c['_L3'][0], c['_L3'][1])
-    # Earth only: periodic terms
-    auxnames, aux = [], []
-    while True:
-        st = b.peek()
-        c = {}
-        if isinstance(st, ast.Assign) and len(st.targets) == 1 and isinstance(st.targets[0], ast.Name) \
-                and match(P('_ = Angle(_L1 + _L2 * k)').value, st.value, c, ctx):
-            name = st.targets[0].id
-            if name in auxnames or name in ('k', 'jde', 'epoch', 'perihelion', 'corr'):
-                fail(ctx, st, 'auxiliary angle reuses the name %s' % name)
-            auxnames.append(name)
-            aux.append((c['_L1'], c['_L2']))
-            b.i += 1
-        else:
-            break
-    rec['aux'] = aux
+            c = dict(s)
+            if match(PE('_L1 + _S1 * (_L2 - _S1 * _L3)'), base, c, ctx):
+                rec['P'], rec['Q'] = c['_L2'], (-c['_L3'][0], c['_L3'][1])
+            else:
+                fail(ctx, fn, 'the first approximation `%s` is not `J0 + k * P` or `J0 + k * (P +- k * Q)`'
+                     % ast.unparse(base)[:100])
+    c = {}
+    if not match(PE('round(_E1) if perihelion else round(_E2 + _L1) - _L1'), k, c, ctx) or not same(c['_E1'], c['_E2']):
+        fail(ctx, fn, 'the count `%s` is not `round(k) if perihelion else round(k + h) - h`' % ast.unparse(k)[:100])
+    rec['half'] = c['_L1']
+    c2 = {}
+    if not match(PE('_L1 * (epoch.year() - _L2)'), c['_E1'], c2, ctx):
+        fail(ctx, fn, 'the count is not computed from `<lit> * (epoch.year() - <lit>)`')
+    rec['C'], rec['Y0'] = c2['_L1'], c2['_L2']
+
+    def is_k(n):
+        return same(n, k)
+
+    def aux_of(n):
+        cc = {'_F1': is_k}
+        if match(PE('Angle(_L1 + _L2 * _F1).rad()'), n, cc, ctx):
+            return (cc['_L1'], cc['_L2'])
+        return None
+    ser = Series(ctx, is_k, None, aux_of, 'k')
     rec['corrPeri'] = rec['corrAph'] = None
-    st = b.peek()
-    if isinstance(st, ast.If) and ast.unparse(st.test) == 'perihelion':
-        c1, c2 = {}, {}
-        if not (len(st.body) == 1 and len(st.orelse) == 1 and match(P('corr = _E1'), st.body[0], c1, ctx)
-                and match(P('corr = _E1'), st.orelse[0], c2, ctx)):
-            fail(ctx, st, 'expected `if perihelion: corr = ... else: corr = ...`')
-        rec['corrPeri'] = fexpr(ctx, c1['_E1'], 'k', False, auxnames)
-        rec['corrAph'] = fexpr(ctx, c2['_E1'], 'k', False, auxnames)
-        b.i += 1
-        b.expect('jde += corr')
-    elif aux:
-        fail(ctx, st, 'auxiliary angles without a correction')
-    d = b.expect('jde_before = jde - _L1')
-    b.expect('jde_after = jde + _L1', d)
-    rec['delta'] = d['_L1']
-    b.expect('l, b, r_b = _X.geometric_heliocentric_position(Epoch(jde_before))')
-    b.expect('l, b, r = _X.geometric_heliocentric_position(Epoch(jde))')
-    b.expect('l, b, r_a = _X.geometric_heliocentric_position(Epoch(jde_after))')
-    b.expect('m = Interpolation([jde_before, jde, jde_after], [r_b, r, r_a])')
-    b.expect('sol = m.minmax()')
-    b.expect('return Epoch(sol)')
-    b.done()
+    if corr_p is not None:
+        rec['corrPeri'] = ser.fexpr(corr_p)
+        rec['corrAph'] = ser.fexpr(corr_a)
+    rec['aux'] = ser.aux
     return rec
 
 
-def translate_nodes(ctx, fn):
+def translate_nodes(ctx, sx, fn):
     check_args(ctx, fn, ['epoch', 'ascending'], ['True'])
-    b = Body(ctx, body_of(fn))
-    b.type_guard()
-    b.expect('l, a, e, i, ome, arg = _X.orbital_elements_mean_equinox(epoch)')
-    b.expect('t = _X.perihelion_aphelion(epoch)')
-    b.expect('time, r = passage_nodes_elliptic(arg, e, a, t, ascending)')
-    b.expect('return (time, r)')
-    b.done()
+    ret = sx.run(fn)
+    check_events(ctx, fn, sx, False)
+    c = {}
+    if not (isinstance(ret, ast.Tuple) and len(ret.elts) == 2
+            and match(PE('__unpack__(_E1, 0, 2)'), ret.elts[0], c, ctx)
+            and match(PE('__unpack__(_S1, 1, 2)'), ret.elts[1], {'_S1': c['_E1']}, ctx)):
+        fail(ctx, fn, 'the returned value is not `time, r` of `time, r = passage_nodes_elliptic(...)`')
+    call = c['_E1']
+    c = {}
+    pat = ('passage_nodes_elliptic(__unpack__(_E1, 5, 6), __unpack__(_E2, 2, 6), __unpack__(_E3, 1, 6), '
+           '_X.perihelion_aphelion(epoch), ascending)')
+    if not match(PE(pat), call, c, ctx) or not (same(c['_E1'], c['_E2']) and same(c['_E1'], c['_E3'])) \
+            or not match(PE('_X.orbital_elements_mean_equinox(epoch)'), c['_E1'], {}, ctx):
+        fail(ctx, fn, 'the call `%s` is not passage_nodes_elliptic(arg, e, a, %s.perihelion_aphelion(epoch), ascending) '
+                      'with the mean elements of `epoch`' % (ast.unparse(call)[:80], ctx['cls']))
     return {}
 
 
-# ------------------------------------------------------------------ driver
+# ------------------------------------------------------------------ translation of a package
+def translate(pkg):
+    """-> (ch36 records, perihelion_aphelion records, passage_nodes names), in source order."""
+    ch36, pa, nodes = [], [], []
+    for mod in MODULES:
+        rel = 'pymeeus/%s.py' % mod
+        if rel not in pkg.sources:
+            continue
+        src = pkg.sources[rel]
+        tree = pkg.tree(rel)
+        classes = [n for n in tree.body if isinstance(n, ast.ClassDef) and n.name == mod]
+        if len(classes) != 1:
+            raise Reject('%s: expected exactly one class %s' % (rel, mod))
+        seen = set()
+        for fn in classes[0].body:
+            if not isinstance(fn, ast.FunctionDef):
+                continue
+            ctx = {'fn': '%s.%s' % (mod, fn.name), 'file': rel, 'src': src, 'cls': mod, 'meth': fn.name}
+            if fn.name in seen:
+                fail(ctx, fn, 'method defined twice')
+            seen.add(fn.name)
+            sx = Sym(ctx, pkg, rel, classes[0])
+            if fn.name in CH36:
+                ch36.append((ctx['fn'], translate_ch36(ctx, sx, fn)))
+            elif fn.name == 'perihelion_aphelion':
+                pa.append((ctx['fn'], translate_pa(ctx, sx, fn)))
+            elif fn.name == 'passage_nodes':
+                translate_nodes(ctx, sx, fn)
+                nodes.append(ctx['fn'])
+            elif not fn.name.startswith('_'):
+                code_only = '\n'.join(ast.unparse(s) for s in body_of(fn))
+                if re.search(r'\.year\(\)|\bround\(\(', code_only) or 'passage_nodes_elliptic' in code_only:
+                    fail(ctx, fn, 'looks like an event finder (uses .year() / round((...)) / passage_nodes_elliptic) '
+                                  'but is not one of the known finder names')
+    return ch36, pa, nodes
+
+
+# ------------------------------------------------------------------ output
 def lean_opt(x):
     return 'none' if x is None else '(some %s)' % x
 
@@ -410,61 +1074,42 @@ def write_if_changed(path, text):
     return 0
 
 
+def render_ch36(name, r):
+    out = ['def %s : Finder :=' % ident(name)]
+    out.append('  { name := "%s", ylo := %s, yhi := %s, yc := %s, y0 := %s,' % (
+        name, lean_dec(r['ylo']), lean_dec(r['yhi']), lean_dec(r['yc']), lean_dec(r['y0'])))
+    out.append('    A := %s, B := %s, M0 := %s, M1 := %s, tj := %s, tc := %s,' % (
+        lean_dec(r['A']), lean_dec(r['B']), lean_dec(r['M0']), lean_dec(r['M1']), lean_dec(r['tj']), lean_dec(r['tc'])))
+    out.append('    aux := %s,' % lean_aux(r['aux']))
+    out.append('    corr := %s,' % r['corr'])
+    out.append('    elon := %s }' % lean_opt(r['elon']))
+    out.append('')
+    return out
+
+
+def render_pa(name, r):
+    out = ['def %s : PAFinder :=' % ident(name)]
+    out.append('  { name := "%s", C := %s, Y0 := %s, half := %s, J0 := %s, P := %s, Q := %s,' % (
+        name, lean_dec(r['C']), lean_dec(r['Y0']), lean_dec(r['half']), lean_dec(r['J0']), lean_dec(r['P']), lean_dec(r['Q'])))
+    out.append('    aux := %s,' % lean_aux(r['aux']))
+    out.append('    corrPeri := %s,' % lean_opt(r['corrPeri']))
+    out.append('    corrAph := %s,' % lean_opt(r['corrAph']))
+    out.append('    delta := %s }' % lean_dec(r['delta']))
+    out.append('')
+    return out
+
+
 def main():
-    ch36, pa, nodes = [], [], []
-    for mod in MODULES:
-        rel = 'pymeeus/%s.py' % mod
-        path = os.path.join(REPO, rel)
-        src = open(path).read()
-        tree = ast.parse(src)
-        classes = [n for n in tree.body if isinstance(n, ast.ClassDef) and n.name == mod]
-        if len(classes) != 1:
-            raise Reject('%s: expected exactly one class %s' % (rel, mod))
-        seen = set()
-        for fn in classes[0].body:
-            if not isinstance(fn, ast.FunctionDef):
-                continue
-            ctx = {'fn': '%s.%s' % (mod, fn.name), 'file': rel, 'src': src, 'cls': mod, 'meth': fn.name}
-            if fn.name in seen:
-                fail(ctx, fn, 'method defined twice')
-            seen.add(fn.name)
-            fsrc = _fast_segment(src, fn)
-            code_only = '\n'.join(ast.unparse(s) for s in body_of(fn))
-            if fn.name in CH36:
-                ch36.append((ctx['fn'], translate_ch36(ctx, fn)))
-            elif fn.name == 'perihelion_aphelion':
-                pa.append((ctx['fn'], translate_pa(ctx, fn)))
-            elif fn.name == 'passage_nodes':
-                translate_nodes(ctx, fn)
-                nodes.append(ctx['fn'])
-            elif re.search(r'\.year\(\)|\bround\(\(', code_only) or 'passage_nodes_elliptic' in code_only:
-                fail(ctx, fn, 'looks like an event finder (uses .year() / round((...)) / passage_nodes_elliptic) '
-                              'but is not one of the known finder names')
-            del fsrc
+    ch36, pa, nodes = translate(package_of_repo(REPO))
     if not ch36 or not pa or not nodes:
         raise Reject('no finders found under %s' % REPO)
 
     out = ['-- GENERATED by tools/gen_finders.py from %s; do not edit.' % ', '.join('pymeeus/%s.py' % m for m in MODULES),
            'import Pymeeus.Lemmas.FinderTypes', 'namespace Pymeeus.Finders.Data', 'open Pymeeus.Finders', '']
     for name, r in ch36:
-        out.append('def %s : Finder :=' % ident(name))
-        out.append('  { name := "%s", ylo := %s, yhi := %s, yc := %s, y0 := %s,' % (
-            name, lean_dec(r['ylo']), lean_dec(r['yhi']), lean_dec(r['yc']), lean_dec(r['y0'])))
-        out.append('    A := %s, B := %s, M0 := %s, M1 := %s, tj := %s, tc := %s,' % (
-            lean_dec(r['A']), lean_dec(r['B']), lean_dec(r['M0']), lean_dec(r['M1']), lean_dec(r['tj']), lean_dec(r['tc'])))
-        out.append('    aux := %s,' % lean_aux(r['aux']))
-        out.append('    corr := %s,' % r['corr'])
-        out.append('    elon := %s }' % lean_opt(r['elon']))
-        out.append('')
+        out += render_ch36(name, r)
     for name, r in pa:
-        out.append('def %s : PAFinder :=' % ident(name))
-        out.append('  { name := "%s", C := %s, Y0 := %s, half := %s, J0 := %s, P := %s, Q := %s,' % (
-            name, lean_dec(r['C']), lean_dec(r['Y0']), lean_dec(r['half']), lean_dec(r['J0']), lean_dec(r['P']), lean_dec(r['Q'])))
-        out.append('    aux := %s,' % lean_aux(r['aux']))
-        out.append('    corrPeri := %s,' % lean_opt(r['corrPeri']))
-        out.append('    corrAph := %s,' % lean_opt(r['corrAph']))
-        out.append('    delta := %s }' % lean_dec(r['delta']))
-        out.append('')
+        out += render_pa(name, r)
     out.append('/-- Every Meeus ch. 36 finder of the source (%d). -/' % len(ch36))
     out.append('def generatedFinders : List Finder :=\n  [' + ',\n   '.join(ident(n) for n, _ in ch36) + ']')
     out.append('')
@@ -496,8 +1141,263 @@ def main():
           % (len(ch36), len(pa), len(nodes), n))
 
 
+# ------------------------------------------------------------------ self-test
+ST_HEAD = """from math import sin, cos
+from pymeeus.Angle import Angle
+from pymeeus.Epoch import Epoch
+from pymeeus.Interpolation import Interpolation
+"""
+
+ST_GUARDS = '''        if not isinstance(epoch, Epoch):
+            raise TypeError("Invalid input type")
+        y = epoch.year()
+        if y < -2000.0 or y > 4000.0:
+            raise ValueError("Epoch outside the -2000/4000 range")
+'''
+
+ST_CONSTS = '''        a = 2451996.706
+        b = 583.921361
+        m0 = 82.7311
+        m1 = 215.513058
+'''
+
+ST_CORR = '''        corr = (-0.0096 + t * (0.0002 - t * 0.00001)
+                + sin(m) * (2.0009 + t * (-0.0033 - t * 0.00001))
+                + cos(2.0 * m) * (0.0913 + t * 0.0009)
+                + sin(aa) * (0.0 + t * 0.0144))
+'''
+
+ST_CH36 = '''
+    @staticmethod
+    def inferior_conjunction(epoch):
+        """doc"""
+''' + ST_GUARDS + ST_CONSTS + '''        k = round((365.2425 * y + 1721060.0 - a) / b)
+        jde0 = a + k * b
+        m = m0 + k * m1
+        m = Angle(m).to_positive()
+        m = m.rad()
+        t = (jde0 - 2451545.0) / 36525.0
+        aa = 82.74 + 40.76 * t
+        aa = Angle(aa).rad()
+''' + ST_CORR + '''        to_return = jde0 + corr
+        return Epoch(to_return)
+'''
+
+ST_KSEL = '''        if perihelion:
+            k = round(k)
+        else:
+            k = round(k + 0.5) - 0.5
+'''
+
+ST_TAIL = '''        jde_before = jde - 0.5
+        jde_after = jde + 0.5
+        l, b, r_b = Venus.geometric_heliocentric_position(Epoch(jde_before))
+        l, b, r = Venus.geometric_heliocentric_position(Epoch(jde))
+        l, b, r_a = Venus.geometric_heliocentric_position(Epoch(jde_after))
+        m = Interpolation([jde_before, jde, jde_after], [r_b, r, r_a])
+        sol = m.minmax()
+        return Epoch(sol)
+'''
+
+ST_PA = '''
+    @staticmethod
+    def perihelion_aphelion(epoch, perihelion=True):
+        if not isinstance(epoch, Epoch):
+            raise TypeError("Invalid input value")
+        k = 1.62549 * (epoch.year() - 2000.53)
+''' + ST_KSEL + '''        jde = 2451738.233 + k * (224.7008188 - k * 0.0000000327)
+''' + ST_TAIL
+
+ST_HELPER = '''
+def _checked_year(epoch):
+    """validate and return the year"""
+    if not isinstance(epoch, Epoch):
+        raise TypeError("Invalid input type")
+    y = epoch.year()
+    if y < -2000.0 or y > 4000.0:
+        raise ValueError("out of range")
+    return y
+'''
+
+ST_IC = '\n_IC = (2451996.706, 583.921361, 82.7311, 215.513058)\n'
+
+
+def st_module(ch36=ST_CH36, pa=ST_PA, top=''):
+    return ST_HEAD + top + '\n\nclass Venus(object):\n' + ch36 + pa
+
+
+def st_variants():
+    """(name, expectation, {path: text}); 'same' = identical records, 'not' = different records or rejected."""
+    V = []
+
+    def add(name, expect, ch36=ST_CH36, pa=ST_PA, top='', other=None):
+        src = {'pymeeus/Venus.py': st_module(ch36, pa, top)}
+        if other:
+            src['pymeeus/Other.py'] = other
+        V.append((name, expect, src))
+    with_helper = ST_CH36.replace(ST_GUARDS, '        y = _checked_year(epoch)\n')
+    with_tuple = ST_CH36.replace(ST_CONSTS, '        a, b, m0, m1 = _IC\n')
+    # ---------------- must accept, identical record
+    add('helper for the type and range check', 'same', ch36=with_helper, top=ST_HELPER)
+    add('constants in never-modified module-level names', 'same', top=ST_IC + '_J2000 = 2451545.0\n',
+        ch36=with_tuple.replace('(jde0 - 2451545.0)', '(jde0 - _J2000)'))
+    add('constant tuple read by index', 'same', top=ST_IC,
+        ch36=ST_CH36.replace(ST_CONSTS, '        a = _IC[0]\n        b = _IC[1]\n        m0, m1 = _IC[2], _IC[-1]\n'))
+    add('renamed locals, chained calls, no temporaries', 'same', ch36=ST_CH36.replace('jde0', 'jde_mean').replace(
+        '        m = m0 + k * m1\n        m = Angle(m).to_positive()\n        m = m.rad()\n',
+        '        anomaly = Angle(m0 + k * m1).to_positive().rad()\n').replace('sin(m)', 'sin(anomaly)').replace(
+        'cos(2.0 * m)', 'cos(2.0 * anomaly)').replace(
+        '        aa = 82.74 + 40.76 * t\n        aa = Angle(aa).rad()\n',
+        '        long_period = Angle(82.74 + 40.76 * t).rad()\n').replace('sin(aa)', 'sin(long_period)').replace(
+        '        to_return = jde_mean + corr\n        return Epoch(to_return)', '        return Epoch(jde_mean + corr)'))
+    add('corr built by += in the same order', 'same', ch36=ST_CH36.replace(ST_CORR, '''        corr = -0.0096 + t * (0.0002 - t * 0.00001)
+        corr += sin(m) * (2.0009 + t * (-0.0033 - t * 0.00001))
+        corr += cos(2.0 * m) * (0.0913 + t * 0.0009)
+        corr += sin(aa) * (0.0 + t * 0.0144)
+'''))
+    add('tuple assignments and named magic numbers', 'same', ch36=ST_CH36.replace(
+        ST_CONSTS + '        k = round((365.2425 * y + 1721060.0 - a) / b)\n', '''        a, b = 2451996.706, 583.921361
+        m0, m1 = 82.7311, 215.513058
+        gregorian_year = 365.2425
+        origin = 1721060.0
+        year_length = gregorian_year
+        k = round((year_length * y + origin - a) / b)
+''').replace('        t = (jde0 - 2451545.0) / 36525.0',
+             '        j2000, century = 2451545.0, 36525.0\n        t = (jde0 - j2000) / century'))
+    add('private static helper of the class and a separate validation helper', 'same', top='''
+def _require_epoch(epoch):
+    if not isinstance(epoch, Epoch):
+        raise TypeError("Invalid input type")
+''', ch36='''
+    @staticmethod
+    def _count(y, a, b):
+        return round((365.2425 * y + 1721060.0 - a) / b)
+''' + ST_CH36.replace('        if not isinstance(epoch, Epoch):\n            raise TypeError("Invalid input type")\n',
+                      '        _require_epoch(epoch)\n').replace('k = round((365.2425 * y + 1721060.0 - a) / b)',
+                                                                   'k = Venus._count(y, a, b)'))
+    add('range guard with the raise in the else branch of the negated test', 'same', ch36=ST_CH36.replace(
+        '        if y < -2000.0 or y > 4000.0:\n            raise ValueError("Epoch outside the -2000/4000 range")\n        a = 2451996.706\n',
+        '''        if not (y < -2000.0 or y > 4000.0):
+            a = 2451996.706
+        else:
+            raise ValueError("Epoch outside the -2000/4000 range")
+'''))
+    add('to_positive() as a statement on a named Angle', 'same', ch36=ST_CH36.replace(
+        '        m = Angle(m).to_positive()\n        m = m.rad()\n',
+        '        m = Angle(m)\n        m.to_positive()\n        m = m.rad()\n'))
+    add('perihelion_aphelion: inverted condition, swapped branches', 'same', pa=ST_PA.replace(ST_KSEL, '''        if not perihelion:
+            k = round(k + 0.5) - 0.5
+        else:
+            k = round(k)
+'''))
+    add('perihelion_aphelion: conditional expression', 'same',
+        pa=ST_PA.replace(ST_KSEL, '        k = round(k) if perihelion else round(k + 0.5) - 0.5\n'))
+    add('perihelion_aphelion: for loop filling a list', 'same', pa=ST_PA.replace(ST_TAIL, '''        half_day = 0.5
+        instants = [jde - half_day, jde, jde + half_day]
+        distances = []
+        for instant in instants:
+            _, _, radius = Venus.geometric_heliocentric_position(Epoch(instant))
+            distances.append(radius)
+        table = Interpolation(instants, distances)
+        return Epoch(table.minmax())
+'''))
+    # ---------------- must differ or be rejected
+    add('helper clamps instead of raising', 'not', ch36=with_helper, top=ST_HELPER.replace(
+        '    if y < -2000.0 or y > 4000.0:\n        raise ValueError("out of range")\n',
+        '    if y < -2000.0:\n        y = -2000.0\n    if y > 4000.0:\n        y = 4000.0\n'))
+    add('helper with the range -2000/3000', 'not', ch36=with_helper, top=ST_HELPER.replace('4000.0', '3000.0'))
+    add('helper replaced from another module (setattr)', 'not', ch36=with_helper, top=ST_HELPER,
+        other='import pymeeus.Venus\nsetattr(pymeeus.Venus, "_checked_year", lambda e: 2000.0)\n')
+    add('helper defined twice', 'not', ch36=with_helper, top=ST_HELPER + ST_HELPER.replace('4000.0', '3000.0'))
+    add('constant tuple re-bound later in its module', 'not', ch36=with_tuple,
+        top=ST_IC + '_IC = (2451996.706, 584.0, 82.7311, 215.513058)\n')
+    add('constant tuple re-bound through `global` in a function', 'not', ch36=with_tuple, top=ST_IC + '''
+
+def recalibrate():
+    global _IC
+    _IC = (2451996.706, 584.0, 82.7311, 215.513058)
+''')
+    add('constant tuple replaced from another module', 'not', ch36=with_tuple, top=ST_IC,
+        other='import pymeeus.Venus\npymeeus.Venus._IC = (1.0, 2.0, 3.0, 4.0)\n')
+    add('constant list (mutable) modified in place somewhere', 'not', ch36=with_tuple,
+        top='\n_IC = [2451996.706, 583.921361, 82.7311, 215.513058]\n', other='from pymeeus.Venus import _IC\n_IC[1] = 584.0\n')
+    add('corr += chain with a term moved', 'not', ch36=ST_CH36.replace(ST_CORR, '''        corr = -0.0096 + t * (0.0002 - t * 0.00001)
+        corr += cos(2.0 * m) * (0.0913 + t * 0.0009)
+        corr += sin(m) * (2.0009 + t * (-0.0033 - t * 0.00001))
+        corr += sin(aa) * (0.0 + t * 0.0144)
+'''))
+    add('augmented assignment inside a branch', 'not', ch36=ST_CH36.replace(
+        '        to_return = jde0 + corr\n', '        if t > 0.0:\n            corr += 0.001\n        to_return = jde0 + corr\n'))
+    add('an alias that is re-bound', 'not', ch36=ST_CH36.replace(
+        '        k = round((365.2425 * y + 1721060.0 - a) / b)\n',
+        '        period = b\n        b = 584.0\n        k = round((365.2425 * y + 1721060.0 - a) / period)\n'))
+    add('+= on a value that is not known to be a number', 'not', ch36=ST_CH36.replace(
+        '        m = Angle(m).to_positive()\n        m = m.rad()\n',
+        '        m = Angle(m)\n        m += 0.0\n        m = m.to_positive().rad()\n'))
+    add('year() evaluated before the type guard', 'not', ch36=ST_CH36.replace(
+        '        if not isinstance(epoch, Epoch):\n            raise TypeError("Invalid input type")\n        y = epoch.year()\n',
+        '        y = epoch.year()\n        if not isinstance(epoch, Epoch):\n            raise TypeError("Invalid input type")\n'))
+    add('a statement with a possible side effect', 'not', ch36=ST_CH36.replace(
+        '        m = Angle(m).to_positive()\n        m = m.rad()\n',
+        '        m = Angle(m).to_positive()\n        m.set_tolerance(1e-3)\n        m = m.rad()\n'))
+    add('to_positive() result bound to another name, the changed object used afterwards', 'same', ch36=ST_CH36.replace(
+        '        m = Angle(m).to_positive()\n        m = m.rad()\n',
+        '        m = Angle(m)\n        unused = m.to_positive()\n        m = m.rad()\n'))
+    add('unknown method called on a named object, the object used afterwards', 'not', ch36=ST_CH36.replace(
+        '        m = Angle(m).to_positive()\n        m = m.rad()\n',
+        '        m = Angle(m).to_positive()\n        unused = m.set_radians(0.0)\n        m = m.rad()\n'))
+    add('range guard on t instead of y', 'not', ch36=ST_CH36.replace(
+        '        if y < -2000.0 or y > 4000.0:\n            raise ValueError("Epoch outside the -2000/4000 range")\n', '').replace(
+        '        aa = 82.74 + 40.76 * t\n',
+        '        if t < -40.0 or t > 20.0:\n            raise ValueError("Epoch outside the -2000/4000 range")\n        aa = 82.74 + 40.76 * t\n'))
+    add('perihelion_aphelion: list appended to after it was handed over', 'not', pa=ST_PA.replace(
+        '        m = Interpolation([jde_before, jde, jde_after], [r_b, r, r_a])\n', '''        xs = [jde_before, jde]
+        m0 = Interpolation(xs, [r_b, r])
+        xs.append(jde_after)
+        m = Interpolation(xs, [r_b, r, r_a])
+'''))
+    add('perihelion_aphelion: count by truncation', 'not', pa=ST_PA.replace('k = round(k + 0.5) - 0.5', 'k = int(k) + 0.5'))
+    add('perihelion_aphelion: radius taken by index instead of unpacking 3 values', 'not', pa=ST_PA.replace(
+        'l, b, r = Venus.geometric_heliocentric_position(Epoch(jde))', 'r = Venus.geometric_heliocentric_position(Epoch(jde))[1]'))
+    add('a changed coefficient', 'not', ch36=ST_CH36.replace('0.0913', '0.0931'))
+    add('sin and cos swapped', 'not', ch36=ST_CH36.replace('cos(2.0 * m)', 'sin(2.0 * m)'))
+    return V
+
+
+def st_render(sources):
+    ch36, pa, _ = translate(Package(sources))
+    out = []
+    for n, r in ch36:
+        out += render_ch36(n, r)
+    for n, r in pa:
+        out += render_pa(n, r)
+    return '\n'.join(out)
+
+
+def selftest():
+    base = st_render({'pymeeus/Venus.py': st_module()})
+    variants = st_variants()
+    bad = 0
+    for name, expect, sources in variants:
+        if sources['pymeeus/Venus.py'] == st_module() and 'pymeeus/Other.py' not in sources:
+            print('FAIL %-75s the variant is textually the base (replace did not apply)' % name)
+            bad += 1
+            continue
+        try:
+            res, why = ('same' if st_render(sources) == base else 'differs'), ''
+        except Reject as e:
+            res, why = 'rejected', str(e)
+        ok = (res == 'same') if expect == 'same' else (res in ('differs', 'rejected'))
+        bad += 0 if ok else 1
+        print('%-4s %-75s %s%s' % ('ok' if ok else 'FAIL', name, res, (' - ' + why[:120]) if why else ''))
+    print('gen_finders --selftest: %d variant(s), %d failure(s)' % (len(variants), bad))
+    return 1 if bad else 0
+
+
 if __name__ == '__main__':
     try:
+        if '--selftest' in sys.argv[1:]:
+            sys.exit(selftest())
         main()
     except Reject as e:
         sys.stderr.write('gen_finders: REJECTED %s\n' % e)
